@@ -789,11 +789,13 @@ def work_opcode(item):
         loaded = parse_dump(text).get(("t.mmm", "__module__")) if text else None
         if BREAK == "lose_arg" and loaded and loaded[0][1]:
             loaded = [(loaded[0][0], loaded[0][1][:-1])]
+        cindex = tracecheck.canon_op(name)       # parse_dump reports canonical opcode indexes (mapped through the names)
         if loaded is None:
             res["problem"], res["detail"] = "load_failed", (r2.err.strip())[-300:]
-        elif loaded != [(index, args)]:
-            res["problem"] = "args_changed" if loaded and loaded[0][0] == index else "wrong_opcode_loaded"
-            res["detail"] = "text form `%s%s` was loaded as %r, expected %r" % (name, text_args, loaded, [(index, args)])
+        elif loaded != [(cindex, args)]:
+            res["problem"] = "args_changed" if loaded and loaded[0][0] == cindex else "wrong_opcode_loaded"
+            res["detail"] = "text form `%s%s` was loaded as %r, expected %r" % (
+                name, text_args, [(tracecheck.opname(o), a) for o, a in loaded], [(name, args)])
         return res
     finally:
         core.rm(d)
